@@ -3,9 +3,16 @@
           binary64 operations (Pow, float64(), Mod, int64()) and the same repeated-addition loop as the Go code (computed fuel);
    prop = the property's boolean checker: the observed string is the printed modular translation (Shift.check_shift), and for the law
           entry every observed string is compared with the specification (not with another observed string).
-   Domain: IDs that parse but are not valid (zoom outside 0..35, index outside the grid — e.g. "-1/0/0/0/0", on which the library does not
-   return) and shifts that leave int64 are outside the property's quantifier AND outside what the model claims: the entries answer bad_case
-   there (never a silent pass); the generators do not produce them. *)
+   Domain.  Every entry is TOTAL on well-shaped arguments (d_shift_total, d_shift_laws_total, the history entries for a well-formed prelude):
+   - valid ID (the property's quantifier), every sum inside int64: judged as above;
+   - ID that parses but is not valid (index outside the grid, vertical index outside -2^v..2^v-1, vertical zoom outside 0..35, in any
+     accepted spelling) with 0 <= hZoom <= 35, every sum inside int64 and x+dx, y+dy <= 2^53 (float64() exact): still judged — the float
+     twin is total there and equals the integer model (ShiftF.wrap_fx_exact needs no validity), prop = the observed string is the modular
+     translation of the WRAPPED voxel (check_shift: (x+dx) mod 2^h; law entry: the five strings of the integer model shift_api);
+   - anything else (hZoom outside 0..35 — on "-1/0/0/0/0" the library does not return —, a sum outside int64, a non-valid ID whose x+dx
+     exceeds 2^53, a shift below -4094 * 2^h for which the twin refuses the fuel): class "skipped", recomputed here from the arguments
+     alone (call_dom / the twin's own refusal); counted as guard_skips, neither an evaluation nor a pass;
+   - bad_case only for a malformed wire shape (wrong arity / types, a prelude of another shape). *)
 From Coq Require Import ZArith String List Bool.
 From SID Require Import Base Str Ids Wire Shift ShiftF.
 Import ListNotations.
@@ -16,20 +23,34 @@ Definition all64 (l : list Z) : bool := forallb int64_ok l.
 Definition dom_shift (i : eid) (dx dy dv : Z) : bool :=
   validb i && all64 [dx; dy; dv; ex i + dx; ey i + dy; ef i + dv].
 
+Definition c07_skipped : verdict := mkv true true "skipped" VNil.
+(* one call is judged: malformed string (the answer is ""), or every sum inside int64 and either a valid ID or a horizontal zoom in 0..35
+   with x+dx, y+dy <= 2^53 *)
+Definition call_dom (id : string) (dx dy dv : Z) : bool :=
+  match parse_eid id with
+  | None => true
+  | Some i => all64 [dx; dy; dv; ex i + dx; ey i + dy; ef i + dv] &&
+              (validb i || ((0 <=? eh i)%Z && (eh i <=? 35)%Z && (ex i + dx <=? 2 ^ 53)%Z && (ey i + dy <=? 2 ^ 53)%Z))
+  end.
+Lemma call_dom_valid i dx dy dv : valid i -> call_dom (print_eid i) dx dy dv = dom_shift i dx dy dv.
+Proof.
+  intros Hv. unfold call_dom, dom_shift. rewrite parse_print_eid by now apply valid_fields_ok.
+  apply validb_spec in Hv. rewrite Hv. cbn [orb andb]. apply andb_true_r.
+Qed.
+
 Definition d_shift (args : list val) (obs : val) : verdict :=
-  match args, obs with
-  | [VS id; VZ dx; VZ dy; VZ dv], VS o =>
-      match parse_eid id with
-      | None => mkv (String.eqb EmptyString o) (check_shift id dx dy dv o) "-" (VS EmptyString)
-      | Some i =>
-          if dom_shift i dx dy dv then
-            match shift_api_f id dx dy dv with
-            | Some m => mkv (String.eqb m o) (check_shift id dx dy dv o) "-" (VS m)
-            | None => bad_case
-            end
-          else bad_case
-      end
-  | _, _ => bad_case
+  match args with
+  | [VS id; VZ dx; VZ dy; VZ dv] =>
+      if call_dom id dx dy dv then
+        match shift_api_f id dx dy dv with
+        | Some m => match obs with
+                    | VS o => mkv (String.eqb m o) (check_shift id dx dy dv o) "-" (VS m)
+                    | _ => mkv false false "-" (VS m)       (* panic / timeout / another type: never the model's answer *)
+                    end
+        | None => c07_skipped       (* the twin refuses the fuel: more than 4096 additions in the loop *)
+        end
+      else c07_skipped
+  | _ => bad_case
   end.
 
 (* laws between calls: [s1 = shift id a; s2 = shift s1 b; s12 = shift id (a+b); back = shift s1 (-a); zero = shift id 0] *)
@@ -56,18 +77,79 @@ Definition dom_laws (i : eid) (a1 a2 a3 b1 b2 b3 : Z) : bool :=
   all64 [a1; a2; a3; b1; b2; b3; a1 + b1; a2 + b2; a3 + b3; - a1; - a2; - a3;
          ex i + a1; ey i + a2; ef i + a3; (ex i + a1) mod w + b1; (ey i + a2) mod w + b2; ef i + a3 + b3;
          ex i + (a1 + b1); ey i + (a2 + b2); (ex i + a1) mod w - a1; (ey i + a2) mod w - a2].
-Definition d_shift_laws (args : list val) (obs : val) : verdict :=
-  match args, as_LS obs with
-  | [VS id; VZ a1; VZ a2; VZ a3; VZ b1; VZ b2; VZ b3], Some o =>
-      let ok := match parse_eid id with Some i => dom_laws i a1 a2 a3 b1 b2 b3 | None => true end in
-      if ok then
-        match shift_laws_model id a1 a2 a3 b1 b2 b3 with
-        | Some m => mkv (same_list m o) (check_shift_laws id a1 a2 a3 b1 b2 b3 o) "-" (of_LS m)
-        | None => bad_case
-        end
-      else bad_case
-  | _, _ => bad_case
+(* the five strings of the integer model (total on Z) *)
+Definition shift_laws_int (id : string) (a1 a2 a3 b1 b2 b3 : Z) : list string :=
+  let s1 := shift_api id a1 a2 a3 in
+  [s1; shift_api s1 b1 b2 b3; shift_api id (a1 + b1) (a2 + b2) (a3 + b3); shift_api s1 (- a1) (- a2) (- a3); shift_api id 0 0 0].
+(* a non-valid ID: each of the five calls is judged on its own (call_dom), and the sums / negations the invoker forms are int64 *)
+Definition dom_laws_ext (id : string) (a1 a2 a3 b1 b2 b3 : Z) : bool :=
+  let s1 := shift_api id a1 a2 a3 in
+  all64 [a1 + b1; a2 + b2; a3 + b3; - a1; - a2; - a3] &&
+  call_dom id a1 a2 a3 && call_dom s1 b1 b2 b3 && call_dom id (a1 + b1) (a2 + b2) (a3 + b3) &&
+  call_dom s1 (- a1) (- a2) (- a3) && call_dom id 0 0 0.
+Definition laws_dom (id : string) (a1 a2 a3 b1 b2 b3 : Z) : bool :=
+  match parse_eid id with
+  | None => true
+  | Some i => if validb i then dom_laws i a1 a2 a3 b1 b2 b3 else dom_laws_ext id a1 a2 a3 b1 b2 b3
   end.
+(* prop: valid ID (or malformed string) — the law checker; non-valid ID — the integer model from the wrapped voxel (back / zero are the
+   wrapped ID there, not the ID itself) *)
+Definition laws_prop (id : string) (a1 a2 a3 b1 b2 b3 : Z) (o : list string) : bool :=
+  match parse_eid id with
+  | Some i => if validb i then check_shift_laws id a1 a2 a3 b1 b2 b3 o else same_list (shift_laws_int id a1 a2 a3 b1 b2 b3) o
+  | None => check_shift_laws id a1 a2 a3 b1 b2 b3 o
+  end.
+Definition d_shift_laws (args : list val) (obs : val) : verdict :=
+  match args with
+  | [VS id; VZ a1; VZ a2; VZ a3; VZ b1; VZ b2; VZ b3] =>
+      if laws_dom id a1 a2 a3 b1 b2 b3 then
+        match shift_laws_model id a1 a2 a3 b1 b2 b3 with
+        | Some m => match as_LS obs with
+                    | Some o => mkv (same_list m o) (laws_prop id a1 a2 a3 b1 b2 b3 o) "-" (of_LS m)
+                    | None => mkv false false "-" (of_LS m)
+                    end
+        | None => c07_skipped
+        end
+      else c07_skipped
+  | _ => bad_case
+  end.
+(* on a valid ID the entry's prop IS the law checker *)
+Lemma laws_prop_valid i a1 a2 a3 b1 b2 b3 o : valid i ->
+  laws_prop (print_eid i) a1 a2 a3 b1 b2 b3 o = check_shift_laws (print_eid i) a1 a2 a3 b1 b2 b3 o.
+Proof.
+  intros Hv. unfold laws_prop. rewrite parse_print_eid by now apply valid_fields_ok.
+  apply validb_spec in Hv. now rewrite Hv.
+Qed.
+
+(* ---- totality: on well-shaped arguments the class is "-" or "skipped", never "bad-case", whatever was observed ---- *)
+Definition class_total (v : verdict) : Prop := v_class v = "-" \/ v_class v = "skipped".
+Lemma class_total_not_bad v : class_total v -> v_class v <> "bad-case".
+Proof. intros [E|E]; rewrite E; discriminate. Qed.
+Theorem d_shift_total id dx dy dv obs : class_total (d_shift [VS id; VZ dx; VZ dy; VZ dv] obs).
+Proof.
+  unfold d_shift, class_total. destruct (call_dom id dx dy dv); [|right; reflexivity].
+  destruct (shift_api_f id dx dy dv); [|right; reflexivity]. destruct obs; left; reflexivity.
+Qed.
+Theorem d_shift_laws_total id a1 a2 a3 b1 b2 b3 obs :
+  class_total (d_shift_laws [VS id; VZ a1; VZ a2; VZ a3; VZ b1; VZ b2; VZ b3] obs).
+Proof.
+  unfold d_shift_laws, class_total. destruct (laws_dom id a1 a2 a3 b1 b2 b3); [|right; reflexivity].
+  destruct (shift_laws_model id a1 a2 a3 b1 b2 b3); [|right; reflexivity]. destruct (as_LS obs); left; reflexivity.
+Qed.
+(* "skipped" is answered only outside the judged domain or where the twin itself refuses; inside, the case is judged *)
+Theorem d_shift_skipped_only_outside id dx dy dv obs : v_class (d_shift [VS id; VZ dx; VZ dy; VZ dv] obs) = "skipped" ->
+  call_dom id dx dy dv = false \/ shift_api_f id dx dy dv = None.
+Proof.
+  unfold d_shift. destruct (call_dom id dx dy dv); [|now left]. destruct (shift_api_f id dx dy dv); [|now right].
+  destruct obs; cbn; discriminate.
+Qed.
+(* a valid ID inside int64 and inside the proved range of the float layer is always judged (never skipped) *)
+Theorem d_shift_judged_on_quantifier i dx dy dv obs : valid i -> dom_shift i dx dy dv = true ->
+  hshift_ok i (ex i) dx -> hshift_ok i (ey i) dy -> v_class (d_shift [VS (print_eid i); VZ dx; VZ dy; VZ dv] obs) = "-".
+Proof.
+  intros Hv Hd Hx Hy. unfold d_shift. rewrite (call_dom_valid i dx dy dv Hv), Hd, (shift_api_f_exact i dx dy dv Hv Hx Hy).
+  destruct obs; reflexivity.
+Qed.
 
 (* the law checker compares every observed string with the specification *)
 Theorem check_shift_laws_sound i a1 a2 a3 b1 b2 b3 o : valid i -> check_shift_laws (print_eid i) a1 a2 a3 b1 b2 b3 o = true ->
@@ -119,6 +201,23 @@ Proof. intros Hp. exact (with_prelude_verdict 4 d_shift [VS id; VZ dx; VZ dy; VZ
 Theorem shift_laws_history_independent id a1 a2 a3 b1 b2 b3 p obs : prelude_ok p = true ->
   d_shift_laws_hist [VS id; VZ a1; VZ a2; VZ a3; VZ b1; VZ b2; VZ b3; p] obs = d_shift_laws [VS id; VZ a1; VZ a2; VZ a3; VZ b1; VZ b2; VZ b3] obs.
 Proof. intros Hp. exact (with_prelude_verdict 7 d_shift_laws [VS id; VZ a1; VZ a2; VZ a3; VZ b1; VZ b2; VZ b3] p obs eq_refl Hp). Qed.
+
+(* totality of the history entries: a well-formed prelude never makes a case unprocessable *)
+Theorem d_shift_hist_total id dx dy dv p obs : prelude_ok p = true -> class_total (d_shift_hist [VS id; VZ dx; VZ dy; VZ dv; p] obs).
+Proof. intros Hp. rewrite shift_history_independent by exact Hp. apply d_shift_total. Qed.
+Theorem d_shift_laws_hist_total id a1 a2 a3 b1 b2 b3 p obs : prelude_ok p = true ->
+  class_total (d_shift_laws_hist [VS id; VZ a1; VZ a2; VZ a3; VZ b1; VZ b2; VZ b3; p] obs).
+Proof. intros Hp. rewrite shift_laws_history_independent by exact Hp. apply d_shift_laws_total. Qed.
+(* all four entries of the table at once *)
+Theorem table_C07_never_bad_case id dx dy dv b1 b2 b3 p obs : prelude_ok p = true ->
+  v_class (d_shift [VS id; VZ dx; VZ dy; VZ dv] obs) <> "bad-case" /\
+  v_class (d_shift_laws [VS id; VZ dx; VZ dy; VZ dv; VZ b1; VZ b2; VZ b3] obs) <> "bad-case" /\
+  v_class (d_shift_hist [VS id; VZ dx; VZ dy; VZ dv; p] obs) <> "bad-case" /\
+  v_class (d_shift_laws_hist [VS id; VZ dx; VZ dy; VZ dv; VZ b1; VZ b2; VZ b3; p] obs) <> "bad-case".
+Proof.
+  intros Hp. repeat split; apply class_total_not_bad;
+    [apply d_shift_total | apply d_shift_laws_total | now apply d_shift_hist_total | now apply d_shift_laws_hist_total].
+Qed.
 
 Definition table_C07 : table :=
   [("GetShiftingSpatialID", fun _ => d_shift); ("ShiftLaws", fun _ => d_shift_laws);
